@@ -5,19 +5,19 @@ import CgreenModel.Lemmas.Runner
 namespace Cgreen
 
 /-- The totals the run accumulates are exactly what happened, for every tree. -/
-theorem C03_totals (cap : Nat) (hcap : 0 < cap) (m : Mode) (t : Tree) (hok : t.AllOk cap m) :
-    (run ⟨cap, m⟩ t).tot = t.truth cap := (run_spec cap hcap m t hok).2.2.1
+theorem C03_totals (cap : Nat) (hcap : 0 < cap) (m : Mode) (r : Reporter) (t : Tree) (hok : t.AllOk cap m) :
+    (run ⟨cap, m, r⟩ t).tot = t.truth cap := (run_spec cap hcap m r t hok).2.2.1
 
 /-- Everything a reporter can show that does not depend on process ids — failure messages, exception
 lines, per-test credit, per-suite lines, totals — is the list computed from the tree alone:
 each line carries the path of the test or suite that produced it, in execution order. -/
-theorem C03_results (cap : Nat) (hcap : 0 < cap) (m : Mode) (t : Tree) (hok : t.AllOk cap m) :
-    (run ⟨cap, m⟩ t).out.filter Out.isResult = t.results cap [] ++ [Out.totals (t.truth cap)] :=
-  (run_spec cap hcap m t hok).2.2.2
+theorem C03_results (cap : Nat) (hcap : 0 < cap) (m : Mode) (r : Reporter) (t : Tree) (hok : t.AllOk cap m) :
+    (run ⟨cap, m, r⟩ t).out.filter Out.isResult = t.results cap [] ++ [Out.totals (t.truth cap)] :=
+  (run_spec cap hcap m r t hok).2.2.2
 
 /-- The channel is empty when the run ends: nothing was left over to be credited to anybody else. -/
-theorem C03_channel_empty (cap : Nat) (hcap : 0 < cap) (m : Mode) (t : Tree) (hok : t.AllOk cap m) :
-    (run ⟨cap, m⟩ t).pipe = [] := (run_spec cap hcap m t hok).2.1
+theorem C03_channel_empty (cap : Nat) (hcap : 0 < cap) (m : Mode) (r : Reporter) (t : Tree) (hok : t.AllOk cap m) :
+    (run ⟨cap, m, r⟩ t).pipe = [] := (run_spec cap hcap m r t hok).2.1
 
 /-- Sum of the per-suite lines. -/
 def sumSuiteEnds : List Out → Cnt
@@ -57,9 +57,9 @@ theorem sumSuiteEnds_subs (cap : Nat) : ∀ (cs : List Tree) (path : List String
 end
 
 /-- The per-suite subtotals a reporter prints add up to the grand total it prints. -/
-theorem C03_subtotals (cap : Nat) (hcap : 0 < cap) (m : Mode) (t : Tree) (hok : t.AllOk cap m) :
-    sumSuiteEnds ((run ⟨cap, m⟩ t).out.filter Out.isResult) = (run ⟨cap, m⟩ t).tot := by
-  rw [C03_results cap hcap m t hok, C03_totals cap hcap m t hok]
+theorem C03_subtotals (cap : Nat) (hcap : 0 < cap) (m : Mode) (r : Reporter) (t : Tree) (hok : t.AllOk cap m) :
+    sumSuiteEnds ((run ⟨cap, m, r⟩ t).out.filter Out.isResult) = (run ⟨cap, m, r⟩ t).tot := by
+  rw [C03_results cap hcap m r t hok, C03_totals cap hcap m r t hok]
   simp [sumSuiteEnds_append, sumSuiteEnds_tree, sumSuiteEnds]
 
 /-- Per-test status (CUTE `#success`, XML `<testcase>` children): the credit the parent gives a test is
@@ -79,7 +79,7 @@ theorem C03_F01_witness : (readResultsOld 0 [.skipped, .pass, .completion]).2.1 
 /-- The repaired reader on the same input drains the test's records. -/
 theorem C03_F01_repaired : (readResults 0 false [.skipped, .pass, .completion]).2.1 = [] := by decide
 
-example : (run ⟨4, .fork⟩ (.node "top" false false [] [{ name := "t", body := [.check true, .check true, .check true, .check false, .check true] }])).tot
+example : (run ⟨4, .fork, .text⟩ (.node "top" false false [] [{ name := "t", body := [.check true, .check true, .check true, .check false, .check true] }])).tot
     = ⟨3, 1, 0, 1⟩ := by decide
 
 end Cgreen
